@@ -10,14 +10,34 @@
    The model replays the same releases through Faults.frelease and must agree on every blocked set, on the
    read log and on the outcome (for the concurrent first stage of parseSpecs: for some choice of which
    failing conversion returns first). *)
-From Coq Require Import List NArith Arith Bool.
+From Coq Require Import String Ascii List NArith Arith Bool.
 Import ListNotations.
-Require Import Verif.Base.Harness Verif.Imports.Rules Verif.Imports.Collect Verif.Imports.Faults.
+Require Import Verif.Base.Harness Verif.Imports.Rules Verif.Imports.Collect Verif.Imports.Faults
+               Verif.Imports.ForeignTypes Verif.Imports.Foreign.
 
 Inductive c06_obs := OModel (l:list idx) | OError (e:err) (code:N).
+(* FLockD: as FLock, but the fault of each file is not given: it is COMPUTED by the dispatch model (Foreign.v) from the
+            file's description (name, content, JSON->YAML result, `as` name, readable, payload class)
+   FGuess:  importer.GuessFileType called directly (parser = detectFileType's list, else importer.Formats)
+   FPb:     pbutil.FromPBByteContents probed with contents only one decoder accepts: which decoder the name selects *)
+Inductive g_obs := GoOk (name:string) | GoDetect | GoAmbiguous (names:list string) | GoJson.
 Inductive c06_case :=
 | FLock (gl:list (idx * list idx)) (fl:list (idx * fault)) (maxd:nat) (root:idx) (b0:list idx)
-        (trace:list (idx * list idx)) (o:c06_obs).
+        (trace:list (idx * list idx)) (o:c06_obs)
+| FLockD (gl:list (idx * list idx)) (ds:list (idx * fdesc)) (maxd:nat) (root:idx) (b0:list idx)
+        (trace:list (idx * list idx)) (o:c06_obs)
+| FGuess (parser:bool) (path content:string) (yaml:option string) (o:g_obs)
+| FPb (path:string) (o:option decoder).
+
+(* content given as byte codes (when it is not printable text) *)
+Definition B (l:list N) : string := string_of_list_ascii (map ascii_of_N l).
+Definition D (p c:string) (y:option string) (app rd imp:bool) (pay:payload) : fdesc :=
+  {| d_path := p; d_content := c; d_yaml := y; d_app := app; d_read := rd; d_imports_ok := imp; d_pay := pay |}.
+Definition descs_of (l:list (idx * fdesc)) : idx -> fdesc :=
+  fun f => match find (fun p => N.eqb (fst p) f) l with
+           | Some p => snd p
+           | None => D "?.sysl" "" None false true true PayOk
+           end.
 
 Definition faults_of (l:list (idx * fault)) : faults :=
   fun f => match find (fun p => N.eqb (fst p) f) l with Some p => Some (snd p) | None => None end.
@@ -27,7 +47,8 @@ Definition set_eqb (a b:list idx) : bool :=
 
 Fixpoint err_eqb (a b:err) : bool :=
   match a, b with
-  | EReadFail x, EReadFail y | ESyntax x, ESyntax y | EDetect x, EDetect y | EConvert x, EConvert y => N.eqb x y
+  | EReadFail x, EReadFail y | ESyntax x, ESyntax y | EDetect x, EDetect y | EConvert x, EConvert y
+  | EAmbiguous x, EAmbiguous y | EJson x, EJson y | EPbDecode x, EPbDecode y => N.eqb x y
   | EWrap p x, EWrap q y => N.eqb p q && err_eqb x y
   | _, _ => false
   end.
@@ -49,17 +70,38 @@ Fixpoint freplay (r:rules) (g:graph) (fl:faults) (maxd:nat) (s:fstate) (tr:list 
       end
   end.
 
-Definition c06_ok (r:rules) (c:c06_case) : bool :=
+Definition lock_ok (r:rules) (gl:list (idx * list idx)) (fl:faults) (maxd:nat) (root:idx) (b0:list idx)
+                   (tr:list (idx * list idx)) (obs:c06_obs) : bool :=
+  let g := graph_of gl in
+  let s0 := fsettled r g fl maxd (finit root) in
+  set_eqb (fblocked s0) b0 &&
+  match freplay r g fl maxd s0 tr with
+  | None => false
+  | Some s => fquiescent s
+              && list_eqb N.eqb (freads s) (map fst tr)
+              && existsb (fun ch => obs_matches (foutcome r fl root ch s) obs) (seq 0 (S (length gl)))
+  end.
+
+Definition decoder_eqb (a b:decoder) : bool :=
+  match a, b with DecBinary, DecBinary | DecJson, DecJson | DecText, DecText | DecOther, DecOther => true | _, _ => false end.
+Definition guess_matches (g:guess_res) (o:g_obs) : bool :=
+  match g, o with
+  | GOk f, GoOk n => String.eqb (fname f) n
+  | GDetect, GoDetect | GJsonErr, GoJson => true
+  | GAmbiguous l, GoAmbiguous l' => list_eqb String.eqb l l'
+  | _, _ => false
+  end.
+
+Definition c06_ok (r:rules) (T:tables) (c:c06_case) : bool :=
   match c with
-  | FLock gl fll maxd root b0 tr obs =>
-      let g := graph_of gl in
-      let fl := faults_of fll in
-      let s0 := fsettled r g fl maxd (finit root) in
-      set_eqb (fblocked s0) b0 &&
-      match freplay r g fl maxd s0 tr with
-      | None => false
-      | Some s => fquiescent s
-                  && list_eqb N.eqb (freads s) (map fst tr)
-                  && existsb (fun ch => obs_matches (foutcome r fl root ch s) obs) (seq 0 (S (length gl)))
+  | FLock gl fll maxd root b0 tr obs => lock_ok r gl (faults_of fll) maxd root b0 tr obs
+  | FLockD gl ds maxd root b0 tr obs => lock_ok r gl (faults_from T (descs_of ds)) maxd root b0 tr obs
+  | FGuess parser path content yaml o =>
+      guess_matches (guess (if parser then t_parser T else t_all T) path content yaml) o
+  | FPb path o =>
+      match pb_dispatch (t_pb T) path, o with
+      | Some a, Some b => decoder_eqb a b
+      | None, None => t_pb_unknown_after T
+      | _, _ => false
       end
   end.
